@@ -1,3 +1,4 @@
+import BoolFn.Proofs.ElimAll
 import BoolFn.Proofs.Oracle2
 import BoolFn.Proofs.BddQuant
 import BoolFn.Proofs.BddOps
@@ -112,6 +113,14 @@ theorem order_independent_bdd (vs vs' : List α) (hp : vs.Perm vs') (hnd : vs.No
 theorem representations_agree (vs : List α) (e : Expr α) (b : Bdd α) (hsame : ∀ ρ, b.den ρ = e.den ρ) (ρ : α → Bool) :
     nested (· != ·) Bdd.den vs b ρ = nested (· != ·) Expr.den vs e ρ :=
   Bdd.nested_congr _ _ _ b e hsame vs ρ
+end
+
+section
+variable [Ord α] [Std.TransOrd α] [Std.LawfulEqOrd α]
+/-- the derivative by *every* input is the constant "the function holds at an odd number of points" -/
+theorem bdd_derivative_all_inputs (b : Bdd α) (h : b.WF) :
+    ∃ c, Bdd.derivative b.inputs b = .ok c ∧ c.inputs = [] ∧ ∀ ρ, c.den ρ = decide (b.weight % 2 = 1) :=
+  C10.bdd_derivative_all b h
 end
 
 /-- the pre-repair definition `F[all=0] xor F[all=1]` is wrong: for the empty set it yields the
